@@ -339,7 +339,21 @@ func (s *Sched) Settle(timeout time.Duration) (map[string]Loc, error) {
 			return locs, nil
 		}
 		if time.Now().After(deadline) {
-			return locs, ErrTimeout
+			// say where the procs that did not settle are (diagnosis of the infrastructure failure)
+			buf := make([]byte, 1<<20)
+			buf = buf[:runtime.Stack(buf, true)]
+			var sb strings.Builder
+			for _, p := range running {
+				for _, g := range strings.Split(string(buf), "\n\n") {
+					if strings.HasPrefix(g, fmt.Sprintf("goroutine %d ", p.Gid)) {
+						if len(g) > 1500 {
+							g = g[:1500]
+						}
+						sb.WriteString("\n[" + p.Name + "] " + g)
+					}
+				}
+			}
+			return locs, fmt.Errorf("%w%s", ErrTimeout, sb.String())
 		}
 		spins++
 		if spins < 50 {
